@@ -161,6 +161,8 @@ func extraShapes(maxDepth int) []Shape {
 			s.Opt = "vc"
 			if s.Named == "Float" {
 				s.Opt = "vc+tf"
+				out = append(out, s)
+				s.Opt = "tf" // ApolloCompatibilityTruncateFloatValues alone
 			}
 			out = append(out, s)
 		}
